@@ -334,7 +334,8 @@ func C12(tier string) int {
 						defer wg.Done()
 						defer func() { <-sem }()
 						for _, ch := range b {
-							h := rmHist{N: j.n, Choice: ch, Pruning: pr, Names: names}
+							// (quick tier: the settings-change phase runs for the histories of one substore)
+							h := rmHist{N: j.n, Choice: ch, Pruning: pr, Names: names, SkipSettings: tier != "thorough" && j.n > 1}
 							r, o, l := runC12(h)
 							if c12nontrivial(ch) {
 								atomic.AddInt64(&nontrivial, 1)
